@@ -104,6 +104,7 @@ let op_of_line (f : string list) : op option =
   | ["cc-"; name] -> Some (UDeleteCC (str_of_string name))
   | ["ccf"; name; fins] -> Some (USetCCFinalizers (str_of_string name, fins_of_tok fins))
   | ["dn"] -> Some DeliverNode | ["dnt"] -> Some DeliverNodeTombstone | ["dc"] -> Some DeliverCC
+  | ["rln"] -> Some RelistNodes | ["rlc"] -> Some RelistCCs
   | ["rn"] -> Some ResyncNodes | ["rc"] -> Some ResyncCCs | ["tick"] -> Some Tick
   | ["crash"] -> Some Crash | ["start"] -> Some StartInformers
   | ["fn"; w; key] -> Some (FetchNode (n_of_int (int_of_string w), str_of_string key))
